@@ -257,6 +257,13 @@ def run(ctx):
             if len(d) == 1 and len(a) == 1:
                 ctx.ob("R06.3", site_key(fn, "%s: descendants added before ancestors" % br), idx[id(d[0][0])] < idx[id(a[0][0])], line_of(d[0][0]),
                        "addDescendantStatesToEnter loop precedes addAncestorStatesToEnter loop")
+                # two passes, not one: the descendants of *every* recorded state are added before the ancestors of *any* of them
+                # (ancestor completion default-enters sibling regions that a later recorded state would have filled)
+                la = [l for l in hirq.enclosing_loops(fn, a[0][0]) if l.get("k") == "for"]
+                ld = [l for l in hirq.enclosing_loops(fn, d[0][0]) if l.get("k") == "for"]
+                separate = bool(la) and bool(ld) and la[0] is not ld[0]
+                ctx.ob("R06.3", site_key(fn, "%s: separate passes for descendants and ancestors" % br), separate, line_of(a[0][0]),
+                       "the addAncestorStatesToEnter loop %s the addDescendantStatesToEnter loop" % ("is a different loop from" if separate else "IS"))
         # default history content
         dhc = fn.params[5]["b"] if len(fn.params) > 5 else None
         puts = [c for c in fn.calls("HashTable::put") + fn.calls("HashTable::put_move") if local_of(c["r"], NO_T) == dhc]
